@@ -17,6 +17,8 @@ BOUNDS = {
              'build (served from cache), clean; plus field-wise comparison of the Cache object written and the one read back; '
              'plus a failing write of the new cache (OSError at the open, OSError at the data write, serialisation error after the '
              'open) with and without a previous cache: previous records back field by field and used by the next build / no file left; '
+             'plus builds whose root function records no build_file / subbuild at all (nothing, one is_file, one list_dir) with the '
+             'cache file two new directories deep (c/s/cache), optionally followed by the full program, then clean; '
              'plus a second build that keeps only the first root operation (a pure cache hit): the cache file then lists that build\'s outputs',
     'thorough': 'width 3 / two template-valued functions',
 }
@@ -44,6 +46,7 @@ def families(tier):
         {'name': 'e2e', 'params': {'depth': 1, 'width': 2, 'who': 'bf'}, 'weight': 2},
         {'name': 'e2e', 'params': {'depth': 1, 'width': 1, 'who': 'version'}, 'weight': 1},
         {'name': 'names', 'params': {}, 'weight': 1, 'validate': 24},
+        {'name': 'emptyforest', 'params': {'depth': 0, 'width': 0, 'who': 'a'}, 'weight': 1, 'validate': 4},
         # the write of the new cache fails (open, data, or a value json refuses): the previous content is back / no file left
         {'name': 'writefail', 'params': {'depth': 1, 'width': 1, 'who': 'a'}, 'weight': 1, 'validate': 8},
         # the next build asks for fewer root operations (all of them cache hits): the committed cache must describe that build
@@ -201,16 +204,24 @@ def harness(eng, fam, P):
             ('BF', 'o/q', {'mode': 'ok', 'name': 'q'}, []),
             ('SB', 'f', {}, [('Q', 'list_dir', 'o/q')]),
             ('Q', 'is_file', t1)]
+    full_body = body
+    if fam == 'emptyforest':
+        # a committed build that recorded no build_file / subbuild at all (its function only asks questions, or does nothing):
+        # the directories made for the cache file are still part of what it recorded
+        body = [[], [('Q', 'is_file', t1)], [('Q', 'list_dir', 'o')]][eng.choose('empty_body', 3)]
     shared = {}
     prog = Program(eng, body, shared)
-    w = World(eng, ['c', 'o', 'o/d'], cache_rel='c/cache', sandbox=getattr(eng, 'sandbox', None))
+    w = World(eng, ['c', 'c/s', 'o', 'o/d'] if fam == 'emptyforest' else ['c', 'o', 'o/d'],
+              cache_rel='c/s/cache' if fam == 'emptyforest' else 'c/cache', sandbox=getattr(eng, 'sandbox', None))
     eng.path_info.update({'value': repr(val)[:200], 'names': [n1, n2], 'who': who})
     beh = {}
     for sid, kind, x in prog.functions:
         beh[sid] = 0
     target_sid = {'a': 'r.0', 'bf': 'r.0.0', 'version': 'r.0'}[who]
     versions = {'a': 1}
-    if who == 'version':
+    if fam == 'emptyforest':
+        pass
+    elif who == 'version':
         versions = {'a': val, 'bf': [1, 2.0]}
     else:
         beh[target_sid] = val
@@ -296,6 +307,10 @@ def harness(eng, fam, P):
             eng.check('C16.func-versions-as-given', len(c3._func_versions) == 0, sig,
                       info={'stored': repr(c3._func_versions)[:200], 'given': '{}'})
             eng.witness('versions-dropped')
+        if fam == 'emptyforest' and eng.choose('then_full', 2):
+            # the next build does produce outputs: the directories of the cache file stay attributed to the builds
+            impl4, ref4 = d.build(Program(eng, full_body, shared), versions=versions, behaviour=None)
+            d.guard_same('full-after-empty')
         # ---- clean on the state left by the cached build removes what the builds created
         d.clean()
         d.check_tree('C16.clean', sig)
